@@ -92,8 +92,34 @@ def _abnormal(ex, kind, msg):
         ex.violations.append({'check': kind, 'kf': None, 'inputs': None, 'kind': kind, 'msg': msg + ' (no model: %s)' % e})
 
 
+def _worker_init():
+    # die with the parent; cap memory
+    try:
+        import ctypes, signal, resource
+        ctypes.CDLL('libc.so.6').prctl(1, signal.SIGKILL)
+        resource.setrlimit(resource.RLIMIT_AS, (10 << 30, 10 << 30))
+    except Exception:
+        pass
+
+
+class _PathTimeout(Exception):
+    pass
+
+
+def _alarm(sig, frm):
+    raise _PathTimeout()
+
+
 def _worker(decisions):
-    return run_one(_PROG, _CFG['entry'], decisions, _CFG)
+    import signal
+    signal.signal(signal.SIGALRM, _alarm)
+    signal.alarm(int(_CFG.get('path_timeout', 600)))
+    try:
+        return run_one(_PROG, _CFG['entry'], decisions, _CFG)
+    except _PathTimeout:
+        return {'outcome': 'unsupported', 'msg': 'per-path wall timeout', 'new': [], 'decisions': decisions}
+    finally:
+        signal.alarm(0)
 
 
 class Result:
@@ -180,7 +206,7 @@ def explore(prog, entry, workers=None, max_paths=None, time_cap=None, cfg=None, 
     work = list(r['new'])
     if work:
         ctx = multiprocessing.get_context('fork')
-        with concurrent.futures.ProcessPoolExecutor(max_workers=workers, mp_context=ctx) as pool:
+        with concurrent.futures.ProcessPoolExecutor(max_workers=workers, mp_context=ctx, initializer=_worker_init) as pool:
             pending = set()
             while work or pending:
                 while work and len(pending) < workers * 3:
